@@ -199,8 +199,45 @@ KINDS = {
 }
 
 
+def oracle_alt(p):
+    """alternative arguments of the generator functions that the factory does not forward: the same window must come out"""
+    W = _W()
+    N = p["N"]
+    out = []
+    if p["what"] == "kaiser-method":
+        w = np.asarray(W.window_kaiser(N, p["beta"], method="scipy"))
+        ref = np.kaiser(N, p["beta"])
+        if w.shape != (N,) or not np.all(np.isfinite(w)) or rel(w, ref) > 1e-9:
+            out.append("window_kaiser(N=%d, beta=%g, method='scipy') returns %d samples / differs from the Kaiser window (numpy.kaiser) by %.2e" % (
+                N, p["beta"], w.size, rel(w, ref) if w.shape == ref.shape else float("inf")))
+    if p["what"] == "name-case":
+        # the factory accepts a name in any letter case (it lower-cases it); the Window object must report the same samples for
+        # every name the factory accepts
+        for nm in (p["name"].upper(), p["name"].title()):
+            ref = np.asarray(W.create_window(N, nm), dtype=float)
+            if rel(ref, np.asarray(W.create_window(N, p["name"]), dtype=float)) > 0:
+                out.append("create_window(%d, %r) differs from create_window(%d, %r)" % (N, nm, N, p["name"]))
+            try:
+                o = W.Window(N, nm)
+                if o.N != N or rel(np.asarray(o.data, dtype=float), ref) > 0:
+                    out.append("Window(%d, %r) does not report the samples of create_window(%d, %r)" % (N, nm, N, nm))
+            except ValueError as e:
+                out.append("the factory accepts the window name %r but Window(%d, %r) raises ValueError" % (nm, N, nm))
+                break
+    return out
+
+
+KINDS["alt"] = {"oracle": oracle_alt, "key": lambda p: "alt|%s|%d|%s|%s" % (p["what"], p["N"], p.get("beta"), p.get("name")),
+                "tags": lambda p: ["alt:" + p["what"]]}
+
+
 def gen(rng, nrng, tier):
     W = _W()
+    for N in (1, 2, 3, 8, 9, 64, 65):
+        for beta in (0.0, 8.6, 30.0):
+            yield ("alt", {"what": "kaiser-method", "N": N, "beta": beta})
+    for j, name in enumerate(sorted(W.window_names)):
+        yield ("alt", {"what": "name-case", "N": [8, 9, 33][j % 3], "name": name})
     names = sorted(W.window_names)
     maxex = 96 if tier == "quick" else 512
     for name in names:
